@@ -54,6 +54,10 @@ def jail_tree():
     t = corpus.corpus_tree()
     # one file per directory: the order of the roots is the arrival order of the rows
     t['ks'] = D({d: D({n: F(len(n))}) for d, n in KS.items()})
+    # ignore files that include themselves / each other (twice each: a reader that merely survives one failing level never ends)
+    t['hgself'] = D({'.hg': D({}), '.hgignore': F(data='syntax: glob\n*.o\nsubinclude:/work/hgself/.hgignore\nsubinclude:/work/hgself/.hgignore\n'), 'a.o': F(1), 'b.c': F(2)})
+    t['hgpair'] = D({'.hg': D({}), '.hgignore': F(data='subinclude:/work/hgpair/other\nsubinclude:other\n\\.o$\n'),
+                     'other': F(data='subinclude:/work/hgpair/.hgignore\nsubinclude:.hgignore\n'), 'a.o': F(1)})
     return {'work': D(t)}
 
 
@@ -131,6 +135,19 @@ def labelled():
                "name from . where name = '" + 'x' * 120000 + "'", 'name from . where name = ' + 'y' * 100000, 'name from . where ' + 'not ' * 30000 + 'size > 1',
                'name, ' + '1 + ' * 20000 + '1 from . limit 1', 'name from . where size > 1 ' + 'and size > 1 ' * 10000):
         out.append(([qy], 'long-input', None))
+    # chains inside brackets inside chains: every limit on its own is kept, the tree is as deep as their product
+    def nest(term, op, levels, n):
+        text = term
+        for _ in range(levels):
+            text = term + (' %s %s' % (op, term)) * 3 + ' %s ( %s )' % (op, text) + (' %s %s' % (op, term)) * (n - 4)
+        return text
+    for levels in (3, 6, 20):
+        for qy in ('name from . where ' + nest('size = 7', 'or', levels, 998), 'name from . where ' + nest('size > 1', 'and', levels, 998),
+                   'name, ' + nest('1', '+', levels, 998) + ' from . limit 1', 'name, ' + nest('2', '*', levels, 998) + ' from . limit 1',
+                   'name from . where size > ' + nest('1', '+', levels, 998), 'name from . order by ' + nest('size', '+', levels, 998) + ' limit 1'):
+            out.append(([qy], 'long-input', None))
+    for qy in ('name from /work/hgself hgignore', 'name from /work/hgpair hgignore', 'name from /work/hgself hgignore, /work/hgpair hgignore', 'count(*) from /work hgignore'):
+        out.append(([qy], 'ignore-file-cycle', None))
     # numbers at the edge of the machine types inside expressions and aggregates
     for qy in ('sum(size * 0 + 10000000000000000000) from .', 'avg(size * 0 + 10000000000000000000), var_pop(size * 0 + 1e308) from .',
                '-rand(-9223372036854775808, -9223372036854775807) from . limit 1', 'name, -(0 - 9223372036854775808) from . limit 1',
@@ -223,7 +240,7 @@ def groups(tier, seed):
 
 def single(case):
     return {'kind': 'one', 'argv': case['argv'], 'label': case.get('label'), 'expect': case.get('expect'), 'cli': True,
-            'stdin': case.get('stdin')}
+            'stdin': case.get('stdin'), 'streams': case.get('streams')}
 
 
 # ------------------------------------------------------------------ evaluation
@@ -238,6 +255,11 @@ def get_jail(env):
         j = env._c10 = {'root': troot, 'batch': batch}
         env._batch = batch
     return j
+
+
+STREAM_ARGVS = [['--help'], ['--version'], [], ['-i'], ['--nocolor'], ['name from /work'], ['name from /work into json'], ['count(*) from /work'], ['name from /work order by 7'],
+                ['name from /nonexistent'], ['name from /work where name rx ('], ['name, size from /work order by size limit 2 into csv']]
+STREAM_STATES = [{'stdout': 'full'}, {'stdout': 'epipe'}, {'stderr': 'full'}, {'stderr': 'epipe'}, {'stdout': 'epipe', 'stderr': 'epipe'}, {'stdout': 'full', 'stderr': 'full'}]
 
 
 def run(env, j, argv, cli=False):
@@ -366,6 +388,27 @@ def eval_group(env, group, tier):
             else:
                 agg['cases'] += 1
                 agg['nt'] += 1
+        # a standard stream that cannot be written (fselect --help | head -1; > /dev/full; closed by the caller)
+        for a in STREAM_ARGVS:
+            for st in STREAM_STATES:
+                o = core.run_jailed(env, j['root'], a, timeout=10.0, cwd='/work', streams=st)
+                cls, detail = judge(o)
+                if cls == 'status2-without-diagnostic' and 'stderr' in st:
+                    cls = None
+                case = {'argv': a, 'label': 'streams', 'streams': st, 'expect': None}
+                if cls:
+                    outs.append({'case': case, 'status': 'viol', 'cls': cls, 'detail': dict(detail, argv=a, streams=st), 'nt': True, 'sig': ('viol', cls), 'layer': 'argv-streams'})
+                else:
+                    agg['cases'] += 1
+                    agg['nt'] += 1
+    elif kind == 'one' and group.get('label') == 'streams':
+        o = core.run_jailed(env, j['root'], group['argv'], timeout=10.0, cwd='/work', streams=group['streams'])
+        cls, detail = judge(o)
+        if cls == 'status2-without-diagnostic' and 'stderr' in group['streams']:
+            cls = None
+        if cls:
+            outs.append({'case': {'argv': group['argv'], 'label': 'streams', 'streams': group['streams'], 'expect': None}, 'status': 'viol', 'cls': cls,
+                         'detail': dict(detail, argv=group['argv'], streams=group['streams']), 'nt': True, 'sig': ('viol', cls), 'layer': 'argv-streams'})
     elif kind == 'one' and group.get('label') == 'cwd-removed':
         o = core.run_jailed(env, j['root'], group['argv'], timeout=10.0, cwd='@gone')
         cls, detail = judge(o)
